@@ -2,6 +2,8 @@ import argparse
 import os
 import sys
 
+sys.set_int_max_str_digits(0)
+
 
 def main():
     ap = argparse.ArgumentParser()
